@@ -74,7 +74,7 @@ func prop(t *rapid.T) {
 	}
 	cfg := chain.ProgCfg{
 		MaxDepth: rapid.IntRange(0, 2).Draw(t, "maxDepth"), MaxMw: 2, MaxStmts: 4, Fallbacks: true, Dynamic: true,
-		Script: chain.ScriptCfg{Writes: true, Data: true, Pollute: true, Abort: 6, Panic: 10},
+		Script: chain.ScriptCfg{Writes: true, Data: true, Pollute: true, Copies: true, Abort: 6, Panic: 10},
 	}
 	prog := chain.GenProgram(t, w, opts, cfg)
 	// a panic hook is always installed: the history must go on after a panicking request
@@ -93,6 +93,18 @@ func prop(t *rapid.T) {
 	}
 	n := rapid.IntRange(2, ev.Pick(12, 30)).Draw(t, "nreq")
 	dirty := map[*rux.Context]bool{} // contexts whose last user polluted them
+	var served []*chain.ReqState
+	defer func() {
+		// a context copy kept by an earlier request is not touched by later requests
+		ncopies := 0
+		for _, st := range served {
+			ncopies += len(st.Copies)
+			if err := st.CheckCopies(); err != nil {
+				t.Fatalf("%v\nprogram:\n%sscripts:\n%s", err, prog, prog.Scripts())
+			}
+		}
+		ev.ClassN("context-copies-kept-across-later-requests", ncopies)
+	}()
 	for i := 0; i < n; i++ {
 		q := pool[rapid.IntRange(0, len(pool)-1).Draw(t, "pick")]
 		chainS, ps, res := pm.Expect(q[0], q[1])
@@ -111,6 +123,7 @@ func prop(t *rapid.T) {
 		st := w.NewRequest(q[0], q[1])
 		st.First = func(c *rux.Context) { snapReal = snapshot(c, st, r) }
 		out := st.Serve(r)
+		served = append(served, st)
 		ctx := fmt.Sprintf("request %d of the history: %s %q (%s)\nprogram:\n%sscripts:\n%s", i, q[0], q[1], res.Kind, prog, prog.Scripts())
 		if snapReal != snapTwin {
 			t.Fatalf("context observed by the first handler:\n   %s\nas first request on a fresh twin router:\n   %s\n%s", snapReal, snapTwin, ctx)
